@@ -25,8 +25,9 @@ A = Algebra()
 S, Rf, If = "S", "R", "I"
 
 LETTER_T = {"F": (S, Rf), "Ft": (Rf, S), "Fi": (Rf, S), "Fit": (S, Rf),
-            "P": (If, Rf), "Pt": (Rf, If), "Pi": (Rf, If), "Pit": (If, Rf)}
-TRANSPOSE = {"F": "Ft", "Ft": "F", "Fi": "Fit", "Fit": "Fi", "P": "Pt", "Pt": "P", "Pi": "Pit", "Pit": "Pi"}
+            "P": (If, Rf), "Pt": (Rf, If), "Pi": (Rf, If), "Pit": (If, Rf),
+            "E": (Rf, Rf)}          # E: a symmetric strain measure of the reference frame (its own transpose)
+TRANSPOSE = {"F": "Ft", "Ft": "F", "Fi": "Fit", "Fit": "Fi", "P": "Pt", "Pt": "P", "Pi": "Pit", "Pit": "Pi", "E": "E"}
 INVERSE = {"F": "Fi", "Fi": "F", "Ft": "Fit", "Fit": "Ft", "P": "Pi", "Pi": "P", "Pt": "Pit", "Pit": "Pt"}
 
 
@@ -230,11 +231,21 @@ class FrameEval:
             raise Unknown("binary op")
         if isinstance(e, ast.Subscript):
             base = self.ev(e.value) if not isinstance(e.value, ast.Name) or e.value.id in self.env else None
+            if isinstance(base, NC):
+                idx = e.slice.elts if isinstance(e.slice, ast.Tuple) else [e.slice]
+                if idx and all(isinstance(i_, ast.Constant) and isinstance(i_.value, int) for i_ in idx):
+                    raise FrameError(e, f"the single component `{norm_src(e)}` of a tensor is not invariant under a rotation of its frame "
+                                        f"(an isotropic / objective energy may depend on a tensor only through invariants)")
             if isinstance(e.value, ast.Name) and e.value.id in self.env and isinstance(self.env[e.value.id], dict):
                 return self.env[e.value.id].get(norm_src(e.slice), A.atom(norm_src(e)))
             return A.atom(norm_src(e))
         if isinstance(e, ast.Call):
             return self.call(e)
+        if isinstance(e, ast.Compare) and len(e.ops) == 1:
+            l_, r_ = self.ev(e.left), self.ev(e.comparators[0])
+            if isinstance(l_, Rat) and isinstance(r_, Rat):
+                return A.atom(f"cmp({l_!r},{type(e.ops[0]).__name__},{r_!r})")
+            raise Unknown("comparison of matrices")
         raise Unknown(type(e).__name__)
 
     def endo(self, p, node, what):
@@ -282,6 +293,11 @@ class FrameEval:
                 self.word_type(wd, e)
                 return A.norm(c * c * c * A.atom("det[" + ".".join(wd) + "]") - A.const(1))
             raise Unknown("detpIm1 of a general tensor")
+        if last in ("where", "if_then_else") and len(args) == 3:
+            vals = [self.ev(a) for a in args]
+            if all(isinstance(v, Rat) for v in vals):
+                return A.atom(f"where({','.join(repr(v) for v in vals)})")
+            raise Unknown("where of matrices")
         if last in ("log", "log1p", "exp", "sqrt", "power", "expm1", "abs"):
             vals = [self.ev(a) for a in args]
             if all(isinstance(v, Rat) for v in vals):
@@ -311,6 +327,13 @@ class FrameEval:
             if ty == ("*", "*"):
                 return NC.ident().scale(A.atom(f"{last}(1)"))
             return self.new_letter(ty, True, last[:3].capitalize())
+        # a scalar function of scalars is invariant whatever it computes
+        try:
+            vals = [self.ev(a) for a in args]
+        except Unknown:
+            vals = None
+        if vals is not None and vals and all(isinstance(v, Rat) for v in vals):
+            return A.atom(f"{d}({','.join(repr(v) for v in vals)})")
         raise Unknown(f"call {d}")
 
     def dev(self, v, node):
@@ -356,6 +379,11 @@ TARGETS = [
     ("optimism.material.MultiBranchHyperViscoelastic:_eq_strain_energy", {"dispGrad": "H"}, "scalar"),
     ("optimism.material.MultiBranchHyperViscoelastic:_compute_elastic_logarithmic_strain", {"dispGrad": "H", "stateOld": "state:P"}, ("I", "I")),
     ("optimism.phasefield.PhaseFieldThreshold:compute_logarithmic_strain", {"dispGrad": "H"}, ("R", "R")),
+    ("optimism.phasefield.PhaseFieldThreshold:elastic_volumetric_free_energy", {"strain": "tensor:E"}, "scalar"),
+    ("optimism.phasefield.PhaseFieldThreshold:elastic_deviatoric_free_energy", {"strain": "tensor:E"}, "scalar"),
+    ("optimism.material.J2Plastic:elastic_volumetric_free_energy", {"strain": "tensor:E"}, "scalar"),
+    ("optimism.material.J2Plastic:elastic_deviatoric_free_energy", {"elasticStrain": "tensor:E"}, "scalar"),
+    ("optimism.material.LinearElastic:_linear_elastic_energy_density", {"strain": "tensor:E"}, "scalar"),
 ]
 
 STATE_UPDATES = [
@@ -371,6 +399,8 @@ def _bind(kind):
         return H_VALUE()
     if kind == "state:P":
         return NC.letter("P")
+    if kind == "tensor:E":
+        return NC.letter("E")
     return A.atom(kind)
 
 
@@ -390,6 +420,8 @@ def run_frames(ctx, rule, which="C08"):
             elif k == "state:P":
                 # any subscript / reshape of the state that is used as a 3x3 tensor is the distortion P
                 fe.env[p] = NC.letter("P")
+            elif k == "tensor:E":
+                fe.env[p] = NC.letter("E")
         # state[...] subscripts: evaluate `state[SLICE].reshape((3,3))` as P by mapping the Name to P and letting
         # Subscript of an NC fall through
         try:
